@@ -180,7 +180,8 @@ fn p11s_body<const BASE: usize>() {
     let i: usize = kani::any();
     kani::assume(i < n0);
     let a = st.lexer_stack[i];
-    assert!(a.row_idx == snap[i].row_idx && a.lexer_state == snap[i].lexer_state && a.byte == snap[i].byte);
+    let vc_5 = a.row_idx == snap[i].row_idx && a.lexer_state == snap[i].lexer_state && a.byte == snap[i].byte;
+    assert!(vc_5);
     assert!(st.scratch.definitive);
     assert!(st.num_rows() == rows0 && st.rows_valid_end == rows0);
     assert!(st.lexer_stack_flush_position == 0);
